@@ -115,6 +115,7 @@ type Run struct {
 	ended      bool
 	end        End
 	panics     []PanicRec
+	lowPrio    int      // next fairness priority (negative, decreasing)
 	blocked    []string // sites of goroutines parked/alive at end
 	alive      []string
 
@@ -621,7 +622,10 @@ func (r *Run) pick(list []*G) int {
 		// starve the others for ever - a real scheduler preempts them.  Every 2000 steps the
 		// goroutine that holds the top priority drops to a low one.
 		if r.step > 0 && r.step%2000 == 0 {
-			list[best].prio = 1 + r.chooseSched("spinprio", 999)
+			// strictly below every priority handed out so far (a random low value is not enough:
+			// goroutines demoted earlier to an even lower one would starve behind the spinner)
+			r.lowPrio--
+			list[best].prio = r.lowPrio
 		}
 		return best
 	case 3:
